@@ -7,6 +7,7 @@ expression or macro is ever skipped silently.  The only constructs dropped on pu
 function's summary (`dropped`).
 """
 import json
+import re
 from rsparse import RsError, FileIndex, Parser, Tok, lex, split_macro_args, INT_SUFFIXES
 
 UMAX = {"u8": "Rs.U8_MAX", "u16": "Rs.U16_MAX", "u32": "Rs.U32_MAX", "u64": "Rs.U64_MAX", "u128": "Rs.U128_MAX",
@@ -18,9 +19,24 @@ LOG_MACROS = ("trace", "debug", "info", "warn", "error", "log")
 LEAN_KW = set("""end from at open type instance where then else do let fun match with if in have show by local prefix
 variable universe theorem def namespace section structure class inductive mutual deriving import export private
 protected partial unsafe macro syntax notation infix return for break continue try catch finally mut using extends
-calc Type Prop Sort abbrev example axiom opaque set_option attribute""".split())
+calc Type Prop Sort abbrev example axiom opaque set_option attribute matches""".split())
 
 INTLIT = ("intlit",)
+
+
+class LazyTy(object):
+    """Lean type of a declared external, printed when the unit is emitted: a struct type mentions the structure's type
+    parameters, which are only final once every function of the unit is translated"""
+    def __init__(self, unit, arg_tys, ret_ty, ret_wrap, paren=True):
+        self.u, self.arg_tys, self.ret_ty, self.ret_wrap, self.paren = unit, tuple(arg_tys), ret_ty, ret_wrap, paren
+    def key(self): return (self.arg_tys, self.ret_ty, self.ret_wrap)
+    def __eq__(self, o): return isinstance(o, LazyTy) and self.key() == o.key()
+    def __hash__(self): return hash(repr(self.key()))
+    def __str__(self):
+        r = self.u.lt(self.ret_ty, False)
+        if self.ret_wrap: r = ("(%s %s)" if self.paren else "%s %s") % (self.ret_wrap, r)
+        return " → ".join([self.u.lt(t, False) for t in self.arg_tys] + [r])
+    def __repr__(self): return str(self)
 UNIT = ("unit",)
 BOOL = ("bool",)
 
@@ -113,10 +129,18 @@ class FnInfo:
     pass
 
 
+class NeedMutSelf(Exception):
+    """a `&self` method turned out to write `self` (through an alias the prescan does not follow): translate it again
+    as a state-updating method"""
+
+
 class Unit:
     """one Rust source file -> one Lean namespace"""
 
-    def __init__(self, repo, rel, ns, const_files=(), externals=None, struct_files=(), src=None, foreign_structs=None, tuple_structs=None):
+    def __init__(self, repo, rel, ns, const_files=(), externals=None, struct_files=(), src=None, foreign_structs=None,
+                 tuple_structs=None, fn_files=(), views=None, rewrite=None, error_ctors=None, compact_guards=False):
+        self.compact_guards = compact_guards   # `if c { policy_err!(..) }` -> one step `Rs.policyErrIf` (no join points)
+        self.error_ctors = error_ctors or {}   # error constructor function -> tag prefix (the argument list is appended)
         self.repo, self.rel, self.ns = repo, rel, ns
         # tuple structs (`struct KVV(pub String, pub (u64, Vec<u8>));`) are opaque unless listed here (or translating
         # from a source text, as the self-test does): then they are the tuple of their components
@@ -127,10 +151,27 @@ class Unit:
                 import os
                 return open(os.path.join(os.path.dirname(os.path.abspath(__file__)), "..", r[len("@verif/"):])).read()
             return open(repo.rstrip("/") + "/" + r).read()
-        self.fi = FileIndex(rel, src if src is not None else load(rel))
+        text = src if src is not None else load(rel)
+        self.rewrites = []          # (rule name, number of applications): trusted source normalisations, listed in the output
+        self.rewrite_failed = {}    # (impl, name) -> why: functions whose normalisation did not apply as declared
+        if rewrite is not None:
+            text = rewrite(text, self.rewrites, self.rewrite_failed)
+        self.fi = FileIndex(rel, text)
         self.struct_src = {n: rel for n in self.fi.structs}
+        self.fn_src = {}            # (impl, name) -> FileIndex of another file (see fn_files)
+        cache = {}
+        def index_of(r):
+            if r not in cache: cache[r] = FileIndex(r, load(r))
+            return cache[r]
+        if views:
+            # trusted *views* of library types: struct declarations (Rust syntax) listing the fields the translated
+            # code may read; they never override a struct of the file itself
+            idx = FileIndex("<views>", views)
+            for n, fields in idx.structs.items():
+                if n not in self.fi.structs:
+                    self.fi.structs[n] = fields; self.struct_src[n] = "trusted view declared in translate/x_fn.py"
         for r in struct_files:      # struct declarations of other files, used as local structures
-            idx = FileIndex(r, load(r))
+            idx = index_of(r)
             for n, fields in idx.structs.items():
                 if n not in self.fi.structs:
                     self.fi.structs[n] = fields; self.struct_src[n] = r
@@ -141,7 +182,14 @@ class Unit:
                     self.fi.enum_data[n] = vs; self.fi.enums[n] = None
             for n, vs in idx.enums.items():
                 self.fi.enums.setdefault(n, vs)
-        self.const_idx = [self.fi] + [FileIndex(r, load(r)) for r in const_files]
+        for r in fn_files:          # functions / methods (and the unit enums they mention) of other files, translated on
+            idx = index_of(r)       # demand like the functions of the unit's own file (target key `fns_from`)
+            for key, k in idx.fns.items():
+                if key not in self.fi.fns:
+                    self.fi.fns[key] = k; self.fn_src[key] = idx
+            for n, vs in idx.enums.items():
+                self.fi.enums.setdefault(n, vs)
+        self.const_idx = [self.fi] + [FileIndex(r, load(r)) for r in const_files] + [index_of(r) for r in fn_files]
         # structs of other crates whose fields the code reads (e.g. bitcoin::OutPoint {txid, vout}): declared in the
         # target list (trusted: field names and types are checked by rustc only through the differential harness)
         for n, flds in (foreign_structs or {}).items():
@@ -151,7 +199,7 @@ class Unit:
         self.externals = externals or {}   # name -> {"params": [rust type str], "ret": rust type str}
         self.fns = {}        # (impl, name) -> FnInfo  (translated)
         self.order = []      # emission order
-        self.failed = {}     # (impl, name) -> message
+        self.failed = dict(self.rewrite_failed)     # (impl, name) -> message  (fail closed)
         self.used_fields = {}  # struct -> ordered list of fields
         self.used_enums = []
         self.used_denums = []   # enums with data-carrying variants
@@ -330,8 +378,16 @@ class Unit:
         self.in_progress.add(key)
         snap = ({k: list(v) for k, v in self.used_fields.items()}, list(self.used_enums), list(self.used_denums))
         try:
-            f = self.fi.function(impl, name)
-            info = FnTranslator(self, f).run()
+            src = self.fn_src.get(key)
+            if src is not None:
+                f = src.function(impl, name)
+            else:
+                f = self.fi.function(impl, name)
+            try:
+                info = FnTranslator(self, f).run()
+            except NeedMutSelf:
+                info = FnTranslator(self, f, force_mut=True).run()
+            if src is not None: info.rel = src.rel
         except RsError as e:
             self.failed[key] = "%s%s: %s" % ((impl + "::") if impl else "", name, e)
             if len(self.in_progress) == 1:
@@ -356,6 +412,10 @@ class Unit:
              "/-! Function bodies translated from `%s` by translate/rs2lean.py (semantics: Prim/Rs.lean)." % self.rel,
              "    Structures list only the fields read or written by the translated functions. -/",
              "namespace %s" % self.ns, "open VlsModel", ""]
+        if self.rewrites:
+            L[3:3] = ["/-! Source normalisations applied before translation (trusted, declared in translate/x_fn.py; each rule must",
+                      "    apply exactly the declared number of times, otherwise nothing of this file is translated):"] + \
+                     ["    * %s  (%d×)" % (n, c) for n, c in self.rewrites] + ["-/"]
         for en in self.used_enums:
             L.append("inductive %s" % en)
             L.append("  " + " ".join("| %s" % lid(v) for v in self.fi.enums[en]))
@@ -428,23 +488,35 @@ class Unit:
 
 # ---------------------------------------------------------------------------------------------- function
 class FnTranslator:
-    def __init__(self, unit, f):
+    def __init__(self, unit, f, force_mut=False):
         self.u, self.f = unit, f
+        self.force_mut = force_mut
         self.impl = f["impl"]
         self.n = 0
         self.exts = []       # external function parameters: (lean name, lean type string)
+        self.ext_opaques = []  # opaque types that occur only in the types of externals (become type parameters)
         self.dropped = []
         self.needs_deq = []
         self.local_consts = {}
         self.callees = []
+        self.ext_opaques = []  # opaque types that only occur in the types of externals
 
     def fresh(self, base="t"):
         self.n += 1
         return "%s_%d" % (base, self.n)
 
-    def add_ext(self, name, ty):
-        if (name, ty) not in self.exts:
+    def add_ext(self, name, ty, ops=()):
+        # one parameter per external name; the Lean type of a declared external is a `LazyTy`, rendered at emission
+        # time, when all used fields / opaque parameters of the structures it mentions are known
+        for o in ops:
+            if o not in self.ext_opaques: self.ext_opaques.append(o)
+        if name not in [n for n, _ in self.exts]:
             self.exts.append((name, ty))
+        for o in ops:
+            if o not in self.ext_opaques: self.ext_opaques.append(o)
+
+    def note_ext_opaque(self, o):
+        if o not in self.ext_opaques: self.ext_opaques.append(o)
 
     # ---- entry
     def run(self):
@@ -490,6 +562,7 @@ class FnTranslator:
             t = u.resolve(ty, self.impl)
             env[pat[1]] = t
             params.append((pat[1], t))
+            if t[0] == "struct": u.used_fields.setdefault(t[1], [])   # emitted even if no field is read
             if refmut: self.mut_params.append(pat[1])
         self.params_pre = params
         for mp in self.mut_params:
@@ -513,6 +586,8 @@ class FnTranslator:
         info.returns_guard = "MutexGuard" in repr(f["ret"]) or "RefMut" in repr(f["ret"])
         info.monadic = self.is_result or monadic(ir)
         info.exts = self.exts
+        info.ext_opaques = self.ext_opaques
+        info.ext_ops = self.ext_opaques
         info.ir = ir
         info.dropped = self.dropped
         info.needs_deq = self.needs_deq
@@ -547,6 +622,8 @@ class FnTranslator:
     def prescan(self, blk):
         """a `&self` method that mutates through a lock, or calls one that does, returns the new self as well"""
         if self.selfk != "ref" or getattr(self, "byval_self", False): return
+        if self.force_mut:
+            self.selfk = "mut"; return
         def walk(e, fn):
             if isinstance(e, tuple):
                 if e and e[0] == "macro": return
@@ -575,6 +652,7 @@ class FnTranslator:
         calls = []
         def f3(e):
             if e and e[0] == "mcall" and e[1] == ("path", ["self"]) and (self.impl, e[2]) in self.u.fi.fns \
+                    and ("self." + e[2]) not in self.u.externals \
                     and (self.impl, e[2]) not in self.u.fi.decl_only: calls.append(e[2])
         walk(blk, f3)
         for m in calls:
@@ -639,7 +717,7 @@ class FnTranslator:
             if info.mut_self and info.is_result and self.selfk == "mut" and info.val_ty == self.val_ty:
                 pre = []
                 a = self.args_for(info, e[4], env, pre)
-                for x in info.exts: self.add_ext(*x)
+                for x in info.exts: self.add_ext(*x, ops=getattr(info, 'ext_opaques', ()))
                 self.callees.append(info.lean_name)
                 return self.wrap(pre, MCall(" ".join([info.lean_name] + [n for n, _ in info.exts] + ["self"] + a)))
         if e[0] in ("call", "mcall"):
@@ -663,6 +741,11 @@ class FnTranslator:
             term, ty = self.expr(e[2][0], env, pre, ("str",))
             self.dropped.append("message of policy_error(..)")
             return term
+        if e[0] == "call" and e[1][0] == "path" and e[1][1][-1] in self.u.error_ctors and len(e[2]) == 1:
+            # declared error constructor carrying a list of indices: tag = "<prefix> " ++ toString list
+            term, ty = self.expr(e[2][0], env, pre, None)
+            if ty[0] != "vec" or not is_uint(ty[1]): raise RsError("error constructor argument outside the subset")
+            return '("%s " ++ toString %s)' % (self.u.error_ctors[e[1][1][-1]], term)
         if e[0] == "mcall" and e[2] == "into":
             return self.err_tag(e[1], env, pre)
         raise RsError("error value outside the subset")
@@ -715,7 +798,7 @@ class FnTranslator:
     def has_try(self, e):
         if isinstance(e, tuple):
             if e and e[0] == "try": return True
-            if e and e[0] == "macro" and e[1] == "policy_err": return True
+            if e and e[0] == "macro" and e[1] in ("policy_err", "temporary_policy_err", "transaction_format_err"): return True
             if e and e[0] == "macro": return False
             return any(self.has_try(x) for x in e)
         if isinstance(e, list):
@@ -778,19 +861,19 @@ class FnTranslator:
         elif e[1][0] == "path" and len(e[1][1]) == 1 and e[1][1][0] in getattr(self, "mut_params", []):
             t = dict(self.params_pre).get(e[1][1][0])
             if t and t[0] == "struct": impl = t[1]
-        def mut_recv(k):
+        def mut_recv(k, key=None):
             if not isinstance(k, int): return False
-            t = self.u.fi.toks
+            t = self.u.fn_src.get(key, self.u.fi).toks      # (functions of other files: target key `fns_from`)
             j = k
             while t[j].s != "(": j += 1
             return t[j + 1].s == "&" and t[j + 2].s == "mut"
         if impl:
             info = self.u.fns.get((impl, e[2]))
             if info is not None and info.mut_self: return True     # also `&self` methods that mutate through a lock
-            return mut_recv(self.u.fi.fns.get((impl, e[2])))
+            return mut_recv(self.u.fi.fns.get((impl, e[2])), (impl, e[2]))
         if e[1] == ("path", ["self"]): return False
         # any other receiver (field, alias, local of a struct type of this file): by name, conservatively
-        return any(mut_recv(k) for (im, nm), k in self.u.fi.fns.items() if nm == e[2])
+        return any(mut_recv(k, (im, nm)) for (im, nm), k in self.u.fi.fns.items() if nm == e[2])
 
     def pat_vars(self, p):
         k = p[0]
@@ -831,6 +914,16 @@ class FnTranslator:
                 env2 = dict(env)
                 env2[pat[1]] = ("alias", al, at)
                 return self.stmts(rest, tail, env2, fin)
+            if pat[0] == "pvar" and ("let:" + pat[1]) in self.u.externals:
+                return self.let_external(pat[1], e, line, rest, tail, env, fin)
+            if e[0] == "macro" and e[1] == "scoped_debug_return" and pat[0] == "pvar" \
+                    and "scoped_debug_return" not in getattr(self.u, "log_macros", ()):
+                # util/debug_utils.rs: a guard that `debug!`-prints its arguments when it is dropped while its flag is
+                # still set; the only thing the function does with it is `*guard = false` before returning Ok
+                self.dropped.append("scoped_debug_return! guard `%s` at line %d (logging only)" % (pat[1], line))
+                env2 = dict(env)
+                env2[pat[1]] = ("dropped",)
+                return self.stmts(rest, tail, env2, fin)
             fa = self.find_alias(e)
             if fa is not None and pat[0] == "pvar":
                 # `let h = X.iter_mut().find(|h| pred).unwrap();`: h is a write-through alias of the first element of
@@ -859,6 +952,8 @@ class FnTranslator:
                 return self.wrap(pre, self.stmts(rest, tail, env2, fin))
             if e[0] in ("if", "iflet", "match") and self.has_jump(e):
                 raise RsError("return inside a let initialiser (line %d)" % line)
+            if ty is None and pat[0] == "pvar" and self.lit_only(e) and e[0] != "int":
+                return self.let_inferred(pat, e, env, rest, tail, fin, line)    # e.g. `let mut min = 1 << 48;`
             pre = []
             self.last_guard = False
             term, t = self.expr(e, env, pre, want)
@@ -868,7 +963,10 @@ class FnTranslator:
             if want is not None:
                 self.check_ty(t, want, "let at line %d" % line)
                 if "unknown" not in repr(want): t = want
-            if t == INTLIT: raise RsError("integer literal without a type (line %d)" % line)
+            if t == INTLIT:
+                if pat[0] != "pvar" or ty is not None:
+                    raise RsError("integer literal without a type (line %d)" % line)
+                return self.let_inferred(pat, e, env, rest, tail, fin, line)
             env2 = dict(env)
             lp = self.bind_pat(pat, t, env2)
             # rename the last temporary instead of an extra let
@@ -900,6 +998,95 @@ class FnTranslator:
             e = st[1]
             return self.stmt_expr(e, rest, tail, env, fin)
         raise RsError("statement outside the subset: %s" % k)
+
+    def snap_state(self):
+        """copy of the mutable translation state (for trial translations that may fail)"""
+        import copy
+        st = {k: copy.copy(v) for k, v in self.__dict__.items()
+              if isinstance(v, (list, dict, set, int, str, tuple, bool, type(None)))}
+        return (st, copy.deepcopy(self.u.used_fields))
+
+    def restore_state(self, s):
+        import copy
+        for k, v in s[0].items():
+            setattr(self, k, copy.copy(v))
+        self.u.used_fields.clear(); self.u.used_fields.update(copy.deepcopy(s[1]))
+
+    def lit_only(self, e):
+        """an expression made of unsuffixed integer literals and arithmetic/shift operators only"""
+        if e[0] == "paren": return self.lit_only(e[1])
+        if e[0] == "int": return not e[2]
+        if e[0] == "binary" and e[1] in ("+", "-", "*", "<<", ">>", "&", "|", "^"): return self.lit_only(e[2]) and self.lit_only(e[3])
+        return False
+
+    def let_inferred(self, pat, e, env, rest, tail, fin, line):
+        """`let x = <expression made of untyped integer literals>;` without annotation: the type is the one rustc
+        infers from the later uses of `x`.  The rest of the function is type-checked with `x : T` for every unsigned
+        integer type T (operands of a binary operation / arguments must have equal types here as in Rust); the
+        translation is accepted only if exactly ONE T type-checks (fail closed otherwise, e.g. when `x` is only
+        cast, where rustc would default to i32)."""
+        snap, restore = self.snap_state, self.restore_state
+        s0 = snap()
+        good = []
+        for cand in ("u64", "u32", "usize", "u16", "u8", "u128"):
+            t = ("int", cand)
+            try:
+                pre = []
+                term, t2 = self.expr(e, env, pre, t)
+                self.check_ty(t2, t, "let at line %d" % line)
+                env2 = dict(env)
+                lp = self.bind_pat(pat, t, env2)
+                pre.append(("let", lp, term))
+                ir = self.wrap(pre, self.stmts(rest, tail, env2, fin))
+                good.append((cand, ir, snap()))
+            except RsError:
+                pass
+            restore(s0)
+        if len(good) != 1:
+            raise RsError("integer literal without a type (line %d): %d unsigned types fit the later uses" % (line, len(good)))
+        restore(good[0][2])
+        return good[0][1]
+
+    def let_external(self, name, e, line, rest, tail, env, fin):
+        """`let <name> = <callee>(<expression outside the subset>)` declared in the target list as
+        `"let:<name>": {"callee": f, "args": [vars], "ret": T}`: the value becomes the external function
+        `ext_let_<name>` of exactly the listed variables.  Fail closed: the initialiser must still be a call of
+        `callee` and its free variables must be exactly the declared ones."""
+        spec = self.u.externals["let:" + name]
+        x = e
+        while x[0] in ("paren", "ref", "deref"): x = x[1]
+        if not (x[0] == "call" and x[1][0] == "path" and x[1][1][-1] == spec["callee"]):
+            raise RsError("initialiser of `%s` (line %d) is not a call of %s" % (name, line, spec["callee"]))
+        fv = []
+        def walk(a):
+            if isinstance(a, tuple):
+                if a and a[0] == "macro": raise RsError("macro inside the opaque initialiser of `%s`" % name)
+                if len(a) == 2 and a[0] == "path" and isinstance(a[1], list) and len(a[1]) == 1 and a[1][0] in env \
+                        and a[1][0] not in fv:
+                    fv.append(a[1][0])
+                for y in a: walk(y)
+            elif isinstance(a, list):
+                for y in a: walk(y)
+        walk(x[2])
+        if sorted(fv) != sorted(spec["args"]):
+            raise RsError("the initialiser of `%s` (line %d) reads %s, declared: %s" % (name, line, sorted(fv), sorted(spec["args"])))
+        rt = self.u.parse_type(spec["ret"], self.impl)
+        pre, terms, tys = [], [], []
+        for a in spec["args"]:
+            term, t = self.expr(("path", [a]), env, pre, None)
+            terms.append(term if " " not in term or term.startswith("(") else "(" + term + ")")
+            tys.append(t)
+        lty = " → ".join([self.u.lt(t, False) for t in tys] + [self.u.lt(rt, False)])
+        for t in tys + [rt]:
+            self.u.opaques_of(t, self.ext_opaques)
+        ident = "ext_let_" + name
+        self.add_ext(ident, lty)
+        self.dropped.append("initialiser of `%s` at line %d: `%s(..)` is not interpreted, it is the external %s of (%s)"
+                            % (name, line, spec["callee"], ident, ", ".join(spec["args"])))
+        env2 = dict(env)
+        env2[name] = rt
+        pre.append(("let", lid(name), "(%s %s)" % (ident, " ".join(terms))))
+        return self.wrap(pre, self.stmts(rest, tail, env2, fin))
 
     def bind_pat(self, pat, t, env):
         """Lean pattern text for a Rust irrefutable pattern; extends env"""
@@ -935,9 +1122,41 @@ class FnTranslator:
             self.macro_stmt(e, env, pre)
             return self.wrap(pre, cont(env))
         if k == "assign":
+            try:
+                root = self.place_root(e[2])
+            except RsError:
+                root = None
+            if root in env and env[root] == ("dropped",):
+                if e[3][0] != "bool": raise RsError("assignment to a logging guard of something else than a literal")
+                return cont(env)
             pre = []
             env2 = self.assign(e, env, pre)
             return self.wrap(pre, cont(env2))
+        if k == "if" and self.u.compact_guards and e[3] is None:
+            g = self.guard_macro(e[2])
+            if g is not None:
+                pre = []
+                c, ct = self.expr(e[1], env, pre, BOOL)
+                self.check_ty(ct, BOOL, "if condition")
+                for lg in g[1]:
+                    self.dropped.append("%s! at line %d (logging: arguments not evaluated)" % (lg[1], lg[3]))
+                m = g[0]
+                a = split_macro_args(m[2], self.u.rel)
+                if a[0] != ("path", ["self"]): raise RsError("%s! on something else than self" % m[1])
+                if not self.is_result: raise RsError("%s! in a function that does not return Result" % m[1])
+                ct_ = c if c.startswith("(") or " " not in c else "(" + c + ")"
+                if m[1] == "policy_err":
+                    if not (self.trait_self or "self" in env): raise RsError("policy_err! without self")
+                    tag, t = self.expr(a[1], env, pre, ("str",))
+                    self.check_ty(t, ("str",), "policy_err! tag")
+                    self.add_ext("policy_filter_err", "String → Bool")
+                    self.dropped.append("message arguments of policy_err! at line %d" % m[3])
+                    pre.append(("bind", "_", MCall("Rs.policyErrIf policy_filter_err %s %s" % (tag, ct_))))
+                else:
+                    if a[1][0] != "str": raise RsError("transaction_format_err! without a literal tag")
+                    self.dropped.append("tag %s and message arguments of transaction_format_err! at line %d" % (a[1][1], m[3]))
+                    pre.append(("bind", "_", MCall("Rs.failIf \"transaction-format\" %s" % ct_)))
+                return self.wrap(pre, cont(env))
         if k in ("if", "iflet", "match", "block"):
             if self.has_jump(e):
                 # the rest of the function is appended to every branch (fail closed on shadowing)
@@ -992,6 +1211,21 @@ class FnTranslator:
         if k == "unit":
             return cont(env)
         raise RsError("expression statement outside the subset: %s" % k)
+
+    def guard_macro(self, blk):
+        """`{ [log!(..);]* policy_err!(..) | transaction_format_err!(..) [;] }` -> (macro, [log macros]) else None"""
+        if blk[0] != "block": return None
+        items = [it for it in blk[1]]
+        if blk[2] is not None: items = items + [("expr", blk[2])]
+        logs = []
+        for it in items[:-1]:
+            if it[0] == "expr" and it[1][0] == "macro" and it[1][1] in LOG_MACROS: logs.append(it[1])
+            else: return None
+        if not items: return None
+        last = items[-1]
+        if last[0] == "expr" and last[1][0] == "macro" and last[1][1] in ("policy_err", "transaction_format_err"):
+            return last[1], logs
+        return None
 
     def control(self, e, env, fin):
         """if / if-let / match whose branches are finished by fin(env, tail_ast)"""
@@ -1197,7 +1431,7 @@ class FnTranslator:
     # ---- macros
     def macro_stmt(self, e, env, pre):
         name, toks, line = e[1], e[2], e[3]
-        if name in LOG_MACROS:
+        if name in LOG_MACROS or name in getattr(self.u, "log_macros", ()):
             self.dropped.append("%s! at line %d (logging: arguments not evaluated)" % (name, line))
             return
         if name in ("assert", "debug_assert"):
@@ -1211,9 +1445,18 @@ class FnTranslator:
             c, t = self.expr(("binary", "==" if name.endswith("eq") else "!=", a[0], a[1]), env, pre, BOOL)
             pre.append(("bind", "_", MCall("Rs.assert %s" % c)))
             return
-        if name == "policy_err":
+        if name == "scoped_debug_return":
+            raise RsError("scoped_debug_return! outside `let <var> = scoped_debug_return!(..)`")
+        if name in ("policy_err", "temporary_policy_err"):
+            if name == "temporary_policy_err":
+                # same filter decision (policy/mod.rs temporary_policy_error_with_filter); the error value differs
+                # only in its `temporary` kind, which the outcome type `Rs.Fail.err tag` does not carry
+                self.dropped.append("the `temporary` kind of the error of temporary_policy_err! at line %d" % line)
             a = split_macro_args(toks, self.u.rel)
-            if a[0] != ("path", ["self"]): raise RsError("policy_err! on something else than self")
+            # receiver: `self`, or a local bound to a declared-and-dropped external such as `self.validator()` (its value
+            # is `()`: whichever validator it is, its policy filter is the external `policy_filter_err`)
+            via_local = a[0][0] == "path" and len(a[0][1]) == 1 and env.get(a[0][1][0]) == UNIT
+            if a[0] != ("path", ["self"]) and not via_local: raise RsError("policy_err! on something else than self")
             if not (self.trait_self or "self" in env): raise RsError("policy_err! without self")
             tag, t = self.expr(a[1], env, pre, ("str",))
             self.check_ty(t, ("str",), "policy_err! tag")
@@ -1221,6 +1464,16 @@ class FnTranslator:
             self.add_ext("policy_filter_err", "String → Bool")
             self.dropped.append("message arguments of policy_err! at line %d" % line)
             pre.append(("bind", "_", MCall("Rs.policyErr policy_filter_err %s" % tag)))
+            return
+        if name == "transaction_format_err":
+            # vls-core/src/policy/error.rs: `return Err(transaction_format_error(format!(..)))` - unconditional (the
+            # policy filter is not consulted and the tag argument is not part of the error value)
+            a = split_macro_args(toks, self.u.rel)
+            if a[0] != ("path", ["self"]): raise RsError("transaction_format_err! on something else than self")
+            if a[1][0] != "str": raise RsError("transaction_format_err! without a literal tag")
+            if not self.is_result: raise RsError("transaction_format_err! in a function that does not return Result")
+            self.dropped.append("tag %s and message arguments of transaction_format_err! at line %d" % (a[1][1], line))
+            pre.append(("bind", "_", MCall("(Rs.fail \"transaction-format\" : Rs.M Unit)")))
             return
         if name in ("panic", "unreachable", "unimplemented", "todo"):
             pre.append(("bind", "_", MCall("(Rs.panic : Rs.M Unit)")))
@@ -1242,6 +1495,11 @@ class FnTranslator:
                 return self.place_set(env[v][1], new, env, pre)
             if v in getattr(self, "guard_vars", ()):
                 raise RsError("write through the MutexGuard returned by a function (%s) is outside the subset" % v)
+            if v == "self" and self.selfk == "ref" and not getattr(self, "byval_self", False) and not self.trait_self \
+                    and env.get("self", ("",))[0] == "struct":
+                # a `&self` method writes `self` (interior mutability through an alias the prescan did not follow):
+                # the updated self must be returned, never dropped
+                raise NeedMutSelf()
             pre.append(("let", lid(v), new))
             return env
         if k == "field":
@@ -1271,6 +1529,13 @@ class FnTranslator:
 
     def assign(self, e, env, pre):
         _, op, l, r = e
+        try:
+            root = self.place_root(l)
+        except RsError:
+            root = None
+        if root is not None and env.get(root) == UNIT and getattr(self.u, "log_macros", ()):
+            self.dropped.append("assignment through the logging guard `%s` (value `()`)" % root)
+            return env
         lt_term, lty = self.place_get(l, env, []) if op != "=" or True else (None, None)
         if op == "=":
             term, t = self.expr(r, env, pre, lty)
@@ -1348,6 +1613,33 @@ class FnTranslator:
         return env
 
     def for_stmt(self, e, env, cont, ctx=None):
+        """`for x in <lit>..<lit>` (both bounds unsuffixed literals): the type of `x` is the one rustc infers from its
+        uses; the loop (and what follows it) is type-checked with every unsigned type, exactly one must fit."""
+        it = e[2]
+        while it[0] == "paren": it = it[1]
+        if it[0] == "range" and it[1] is not None and it[2] is not None and it[1][0] == "int" and not it[1][2] \
+                and it[2][0] == "int" and not it[2][2] and getattr(self, "_range_force", None) is None:
+            s0 = self.snap_state()
+            good = []
+            for cand in ("u64", "u32", "usize", "u16", "u8", "u128"):
+                self._range_force = (id(it), ("int", cand))
+                try:
+                    ir = self.for_stmt_inner(e, env, cont, ctx)
+                    self._range_force = None
+                    good.append((cand, ir, self.snap_state()))
+                except RsError:
+                    pass
+                self._range_force = None
+                self.restore_state(s0)
+                self._range_force = None
+            if len(good) != 1:
+                raise RsError("range over untyped literals: %d unsigned types fit the uses of the loop variable" % len(good))
+            self.restore_state(good[0][2])
+            self._range_force = None
+            return good[0][1]
+        return self.for_stmt_inner(e, env, cont, ctx)
+
+    def for_stmt_inner(self, e, env, cont, ctx=None):
         _, pat, it, body = e
         ctx = ctx or {}
         if self.has_try(body) and not self.is_result:
@@ -1362,9 +1654,11 @@ class FnTranslator:
         A = [("self" if env[v][0] == "alias" else v) for v in self.assigned(body, [], set()) if v in env]
         A = [v for i, v in enumerate(A) if v not in A[:i]]
         if not jumps:
-            if not A:
+            # a loop whose only effect is leaving the function with an error (`?`, policy_err!, transaction_format_err!
+            # in a Result function): the failure of `List.foldlM` over the unit state stops it exactly there
+            if not A and not self.has_try(body):
                 raise RsError("for loop without effect on outer variables")
-            tup = lid(A[0]) if len(A) == 1 else "(" + ", ".join(lid(v) for v in A) + ")"
+            tup = "()" if not A else (lid(A[0]) if len(A) == 1 else "(" + ", ".join(lid(v) for v in A) + ")")
             env2 = dict(env)
             xp = self.pat(pat, elt, env2)
             lets = self.flush_patlets()
@@ -1377,7 +1671,11 @@ class FnTranslator:
                 bir = self.wrap(lets, self.stmts(body[1], body[2], env2, fin2))
             finally:
                 self.loops.pop()
-            if monadic(bir):
+            if not A:
+                if not monadic(bir): raise RsError("for loop without effect on outer variables")
+                fn = "(fun _ %s => do\n%s)" % (xp, "\n".join(emit_m(bir, 8)))
+                pre.append(("bind", "_", MCall("List.foldlM %s () %s" % (fn, lst))))
+            elif monadic(bir):
                 fn = "(fun %s %s => do\n%s)" % (tup, xp, "\n".join(emit_m(bir, 8)))
                 pre.append(("bind", tup, MCall("List.foldlM %s %s %s" % (fn, tup, lst))))
             else:
@@ -1514,6 +1812,12 @@ class FnTranslator:
         """(Lean list term, element type) of an iterable expression"""
         if it[0] == "paren": return self.iter_expr(it[1], env, pre)
         if it[0] == "range":
+            rf = getattr(self, "_range_force", None)
+            if rf is not None and rf[0] == id(it):
+                a, _ = self.expr(it[1], env, pre, rf[1])
+                b, _ = self.expr(it[2], env, pre, rf[1])
+                if it[3]: raise RsError("inclusive range is outside the subset")
+                return "(Rs.range %s %s)" % (a, b), rf[1]
             a, at = self.expr(it[1], env, pre, None) if it[1][0] != "int" else (None, INTLIT)
             b, bt = self.expr(it[2], env, pre, None if at == INTLIT else at)
             if it[1][0] == "int":
@@ -1654,6 +1958,10 @@ class FnTranslator:
                 v = self.fresh()
                 pre.append(("bind", v, MCall("(Rs.panic : Rs.M %s)" % self.u.lt(want, False))))
                 return v, want
+            if e[1] in getattr(self.u, "log_macros", ()):
+                # declared logging-only macro used as a value (a guard object that only logs when dropped): `()`
+                self.dropped.append("%s! at line %d (declared logging-only: value `()`)" % (e[1], e[3]))
+                return "()", UNIT
             raise RsError("macro %s! in expression position is outside the subset" % e[1])
         if k == "struct": return self.struct_lit(e, env, pre)
         if k == "closure": raise RsError("closure outside a supported method argument")
@@ -1735,6 +2043,16 @@ class FnTranslator:
             return "%s.%s" % (en, lid(segs[-1])), ("enum", en)
         if segs[0] == "Self" and len(segs) == 2:
             c = self.u.const_value(segs[1], self.local_consts)
+            if c is not None and c[0] != "expr": return self.lit(c[0], c[1]), c[1]
+        if len(segs) == 2 and (segs[0] == "Self" or (self.impl is not None and segs[0] == self.impl)):
+            # associated constant of the translated impl with a non-integer (e.g. array) initialiser
+            c = self.u.const_value(segs[1], self.local_consts)
+            if c is not None and c[0] == "expr":
+                pre0 = []
+                term, t = self.expr(c[1], {}, pre0, c[2])
+                if pre0: raise RsError("constant %s with an effectful initialiser" % segs[1])
+                self.check_ty(t, c[2], "constant " + segs[1])
+                return "(%s : %s)" % (term, self.u.lt(t)), t
             if c is not None: return self.lit(c[0], c[1]), c[1]
         raise RsError("path %s is outside the subset" % "::".join(segs))
 
@@ -1904,6 +2222,29 @@ class FnTranslator:
 
     def try_(self, e, env, pre, want):
         x = e[1]
+        # res.map_err(|e| e.prepend_msg(..))? : policy/error.rs prepend_msg keeps tag and kind, changes the message only
+        if x[0] == "mcall" and x[2] == "map_err" and len(x[4]) == 1:
+            c = x[4][0]
+            if c[0] == "closure" and len(c[1]) == 1 and c[1][0][0] == "pvar" and c[2][0] == "mcall" \
+                    and c[2][1] == ("path", [c[1][0][1]]) and c[2][2] == "prepend_msg":
+                self.dropped.append("map_err(|e| e.prepend_msg(..)) at line %d (message only)" % x[5])
+                return self.try_(("try", x[1]), env, pre, want)
+            # ext(..).map_err(|e| policy_error(tag, msg))? on an external declared with a `Result<T, _>` return type
+            # (an `Option T` in Lean, `none` = the external returned Err): the Err becomes the tagged policy error
+            if c[0] == "closure" and len(c[1]) == 1 and self.is_result:
+                body = c[2]
+                if body[0] == "block" and not body[1] and body[2] is not None: body = body[2]
+                if body[0] == "call" and body[1][0] == "path" and body[1][1][-1] == "policy_error":
+                    pre2 = []
+                    tag = self.err_tag(body, env, pre2)
+                    if pre2: raise RsError("error value with effects")
+                    term, t = self.expr(x[1], env, pre, None)
+                    if t[0] not in ("extres", "tryres"):
+                        raise RsError("map_err(|e| policy_error(..)) on something else than an external Result")
+                    v = self.fresh()
+                    pre.append(("bind", v, MCall("Rs.okOr %s %s" % (term, tag))))
+                    return v, t[1]
+            raise RsError("map_err with a closure other than |e| e.prepend_msg(..) / |e| policy_error(..) is outside the subset")
         # opt.ok_or(e)? / opt.ok_or_else(|| e)?
         if x[0] == "mcall" and x[2] in ("ok_or", "ok_or_else") and self.is_result:
             o, ot = self.expr(x[1], env, pre, None)
@@ -1919,6 +2260,16 @@ class FnTranslator:
             v = self.fresh()
             pre.append(("bind", v, MCall("Rs.okOr %s %s" % (o, tag))))
             return v, ot[1]
+        if x[0] == "mcall" and x[2] == "map_err" and len(x[4]) == 1 and x[4][0][0] == "closure" and len(x[4][0][1]) == 1:
+            # `.map_err(|ve| ve.prepend_msg(..))?`: `prepend_msg` keeps the tag of a ValidationError, only the message changes
+            c = x[4][0]
+            body = c[2]
+            if body[0] == "block" and not body[1]: body = body[2]
+            pv = c[1][0]
+            pname = pv[1] if isinstance(pv, tuple) and pv[0] == "pvar" else (pv[0][1] if isinstance(pv, tuple) and isinstance(pv[0], tuple) and pv[0][0] == "pvar" else None)
+            if body is not None and body[0] == "mcall" and body[2] == "prepend_msg" and body[1] == ("path", [pname]):
+                self.dropped.append("map_err(prepend_msg): message only, the tag is kept")
+                return self.try_(("try", x[1]), env, pre, want)
         if x[0] in ("call", "mcall"):
             r = self.call_any(x, env, pre, want_result=True)
             if r[2] == "comp":
@@ -1954,18 +2305,19 @@ class FnTranslator:
 
     def call_any(self, e, env, pre, want=None, want_result=False):
         """returns (term, type, 'val'|'comp')"""
-        self.want_result = want_result
-        try:
-            if e[0] == "call":
-                return self.call(e, env, pre, want)
-            return self.mcall(e, env, pre, want)
-        finally:
-            self.want_result = False
+        # `wr_of[id(e)]`: is the Result of exactly this call consumed by `?` / the tail position?  (per call expression:
+        # the arguments are evaluated by nested call_any's)
+        if not hasattr(self, "wr_of"): self.wr_of = {}
+        self.wr_of[id(e)] = want_result
+        self.cur_call = e
+        if e[0] == "call":
+            return self.call(e, env, pre, want)
+        return self.mcall(e, env, pre, want)
 
     def call_translated(self, info, args_terms, env, pre, self_term=None):
         if getattr(info, "returns_guard", False): self.last_guard = True
         if getattr(info, "mut_params", None): raise RsError("call of a function with &mut parameters is outside the subset")
-        for x in info.exts: self.add_ext(*x)
+        for x in info.exts: self.add_ext(*x, ops=getattr(info, 'ext_opaques', ()))
         for o in info.needs_deq:
             if o not in self.needs_deq: self.needs_deq.append(o)
         self.callees.append(info.lean_name)
@@ -1981,7 +2333,7 @@ class FnTranslator:
             return v, info.out_ty, "val"
         return "(" + call + ")", info.out_ty, "val"
 
-    def invoke(self, info, recv, args, env, pre):
+    def invoke(self, info, recv, args, env, pre, wr=False):
         """call of a translated function that updates state (`&mut self` on an arbitrary place `recv`, `&mut` parameters):
         the updated values are stored back into the argument places"""
         a = self.args_for(info, args, env, pre)
@@ -1996,7 +2348,7 @@ class FnTranslator:
         parts += a
         call = " ".join(parts)
         if info.is_result:
-            if not getattr(self, "want_result", False) or not self.is_result:
+            if not wr or not self.is_result:
                 raise RsError("Result of the state-updating call %s used other than by `?` or in tail position" % info.name)
         outs = []   # (fresh name, place AST)
         ps = [p for p in info.params if p[0] != "self"]
@@ -2052,6 +2404,7 @@ class FnTranslator:
 
     def call(self, e, env, pre, want):
         fn, args = e[1], e[2]
+        wr = getattr(self, "wr_of", {}).get(id(e), False)
         if fn[0] != "path": raise RsError("call of a non-path")
         segs = fn[1]
         name = segs[-1]
@@ -2076,6 +2429,8 @@ class FnTranslator:
         if segs == ["Vec", "new"] and not args:
             if want is not None and want[0] == "vec": return "[]", want, "val"
             return "[]", ("vec", ("unknown",)), "val"
+        if len(segs) >= 2 and "::".join(segs) in self.u.externals:
+            return self.call_external("::".join(segs), args, env, pre)      # declared external `Type::function`
         if len(segs) == 2 and segs[0] in ("Vec", "VecDeque", "BTreeMap", "HashMap", "BTreeSet", "HashSet", "OrderedMap",
                                           "UnorderedMap", "OrderedSet", "UnorderedSet", "Map") and name in ("new", "with_capacity", "default"):
             for x in args:
@@ -2135,56 +2490,95 @@ class FnTranslator:
             if info.params and info.params[0][0] == "self":
                 raise RsError("static call of a method")
             if info.mut_params:
-                return self.invoke(info, None, args, env, pre)
+                return self.invoke(info, None, args, env, pre, wr)
             a = self.args_for(info, args, env, pre)
             return self.call_translated(info, a, env, pre)
         raise RsError("call of unknown function %s (not in this file, not declared external)" % "::".join(segs))
 
-    def call_external(self, name, args, env, pre, first=None):
+    def call_external(self, name, args, env, pre, recv=None, field_style=False):
+        """call of a function declared under `externals` in the target list.  `name` is the plain name of a free
+        function, `Type::function` for an associated function, `self.method` for a method of the translated impl that
+        is itself outside the subset (the receiver is NOT passed: the external stands for the method of this one
+        `self`), or `OpaqueType.method` for a method of a value of an opaque type (`recv` = (term, type), passed as
+        the first argument).  A declared `Result<T, E>` is read as `Option<T>` (`Err(_)` -> `none`; only `.unwrap()`,
+        `.ok()`, `.is_ok()`, `.is_err()`, `.unwrap_or(d)` are available on it).  `"drop": True`: the call is not
+        evaluated at all and yields `()` (for a value that is only the receiver of `policy_err!`).  `"monadic": True` on a
+        declared `Result<T, E>`: the external has type `… → Rs.M T` (its `Err(e)` is a failure with the policy tag of `e`)
+        and can be used with `?`; `"partial": True` on any other type: `… → Rs.M T` (it may panic or overflow), bound
+        where it is called.  `StructType.method` (a struct imported from another file): receiver passed, as for opaque
+        types.  External types are printed when the unit is emitted (`LazyTy`).
+        `field.method` (`field_style`): a method of a (generic / foreign) field of `self`, `self.local.get(k)`: the field's
+        value is passed as the receiver and a declared `Result` is monadic unless `"monadic": false`.
+        A bare method name with a `"receiver": T` entry (b0809): a method of a value of exactly type T, the receiver is
+        the first of `params`; `"may_panic"` = `"partial"`.  Wherever a receiver is passed, `params` may either list it
+        first (b0507, b0809) or leave it out (b0103): decided by the arity."""
         spec = self.u.externals[name]
+        if spec.get("drop"):
+            if args: raise RsError("dropped external %s with arguments" % name)
+            self.dropped.append("%s() (declared: only used as the receiver of policy_err!)" % name)
+            return "()", UNIT, "val"
         pts = [self.u.parse_type(s, self.impl) for s in spec["params"]]
         rt = self.u.parse_type(spec["ret"], self.impl)
+        terms, atys = [], []
+        if recv is not None:
+            if len(pts) == len(args) + 1:          # the receiver is the first of `params`
+                self.check_ty(recv[1], pts[0], "receiver of external %s" % name)
+                atys, pts = [pts[0]], pts[1:]
+            else:
+                atys = [recv[1]]
+            terms.append(recv[0] if " " not in recv[0] or recv[0].startswith("(") else "(" + recv[0] + ")")
         if len(pts) != len(args): raise RsError("external %s arity" % name)
-        terms = []
-        if first is not None:
-            # a method of a field: the field's value is the first argument (the external is a pure function of it:
-            # only read-only methods may be declared this way)
-            terms.append(self.paren(first[0])); pts = [first[1]] + pts; args = [None] + list(args)
         for a, pt in zip(args, pts):
-            if a is None: continue
             term, t = self.expr(a, env, pre, pt)
             self.check_ty(t, pt, "argument of external %s" % name)
             terms.append(term if " " not in term or term.startswith("(") else "(" + term + ")")
-        lname = "ext_" + name.replace(".", "_").replace("::", "_")
-        if rt[0] == "result":
-            # a Result-returning external: a computation of the outcome monad (only `?` / tail position use it)
-            lty = " → ".join([self.u.lt(t, False) for t in pts] + ["Rs.M " + self.u.lt(rt[1], False)])
-            self.add_ext(lname, lty)
-            return ("%s %s" % (lname, " ".join(terms))).rstrip(), rt[1], "comp"
-        lty = " → ".join([self.u.lt(t, False) for t in pts] + [self.u.lt(rt, False)])
-        self.add_ext(lname, lty)
-        if not terms: return lname, rt, "val"
-        return "(%s %s)" % (lname, " ".join(terms)), rt, "val"
+        monadic_ext = rt[0] == "result" and (spec.get("monadic") or (field_style and spec.get("monadic") is not False))
+        partial_ext = rt[0] != "result" and (spec.get("partial") or spec.get("may_panic"))
+        if monadic_ext:
+            lty = LazyTy(self.u, atys + pts, rt[1], "Rs.M")      # `Err(e)` = a failure carrying the policy tag of `e`
+        elif partial_ext:
+            lty = LazyTy(self.u, atys + pts, rt, "Rs.M", paren=not spec.get("may_panic"))   # may panic / overflow
+        elif rt[0] == "result":
+            rt = ("tryres", rt[1])
+            lty = LazyTy(self.u, atys + pts, rt[1], "Option")
+        else:
+            lty = LazyTy(self.u, atys + pts, rt, None)
+        ident = "ext_" + re.sub(r"\W+", "_", name)
+        ops = []
+        for t in atys + pts + [rt if rt[0] not in ("tryres", "result") else rt[1]]:
+            self.u.opaques_of(t, ops)
+        self.add_ext(ident, lty, ops)
+        if monadic_ext:
+            return ("%s %s" % (ident, " ".join(terms))).strip(), rt[1], "comp"
+        if partial_ext:
+            v = self.fresh()
+            pre.append(("bind", v, MCall(("%s %s" % (ident, " ".join(terms))).strip())))
+            return v, rt, "val"
+        if not terms: return ident, rt, "val"
+        return "(%s %s)" % (ident, " ".join(terms)), rt, "val"
 
     def mcall(self, e, env, pre, want):
         _, recv, m, turbo, args, line = e
+        wr = getattr(self, "wr_of", {}).get(id(e), False)
+        if recv == ("path", ["self"]) and ("self." + m) in self.u.externals:
+            return self.call_external("self." + m, args, env, pre)
         # methods of the translated impl on self
         if recv == ("path", ["self"]) and self.impl and (self.impl, m) in self.u.fi.fns and m not in ("clone",) \
                 and (self.impl, m) not in self.u.fi.decl_only:
             info = self.u.get_fn(self.impl, m)
             if info.mut_params:
                 if info.mut_self and self.selfk != "mut": raise RsError("&mut self method called from a &self method")
-                return self.invoke(info, recv, args, env, pre)
+                return self.invoke(info, recv, args, env, pre, wr)
             a = self.args_for(info, args, env, pre)
             if info.mut_self:
                 if self.selfk != "mut": raise RsError("&mut self method called from a &self method")
                 if info.is_result:
                     v = self.fresh("r")
                     call = " ".join([info.lean_name] + [n for n, _ in info.exts] + ["self"] + a)
-                    for x in info.exts: self.add_ext(*x)
+                    for x in info.exts: self.add_ext(*x, ops=getattr(info, 'ext_opaques', ()))
                     self.callees.append(info.lean_name)
                     if not self.is_result: raise RsError("Result method called outside a Result function")
-                    if not getattr(self, "want_result", False):
+                    if not wr:
                         raise RsError("Result of the state-updating call %s used other than by `?` or in tail position" % m)
                     if info.val_ty == UNIT:
                         pre.append(("bind", "self", MCall(call))); return "()", UNIT, "tried"
@@ -2200,11 +2594,21 @@ class FnTranslator:
         if recv[0] == "field" and recv[1] == ("path", ["self"]) and ("%s.%s" % (recv[2], m)) in self.u.externals:
             # method of a (generic / foreign) field declared external in the target list: `self.local.get(k)`
             ft, fty = self.expr(recv, env, pre, None)
-            return self.call_external("%s.%s" % (recv[2], m), args, env, pre, first=(ft, fty))
+            return self.call_external("%s.%s" % (recv[2], m), args, env, pre, recv=(ft, fty), field_style=True)
         if recv == ("path", ["self"]) and self.trait_self and (self.impl, m) in self.u.fi.decl_only:
             return self.decl_external(self.impl, m, args, env, pre)
-        if recv[0] == "path" and len(recv[1]) == 1 and recv[1][0] not in env and recv[1][0] != "self":
+        if recv[0] == "path" and len(recv[1]) == 1 and recv[1][0] not in env and recv[1][0] != "self" \
+                and self.u.const_value(recv[1][0], self.local_consts) is None:
             raise RsError("method call on unknown %s" % recv[1][0])
+        if recv[0] == "path" and len(recv[1]) == 1 and recv[1][0] in env and env[recv[1][0]][0] in ("struct", "opaque") \
+                and "%s.%s" % (env[recv[1][0]][1], m) in self.u.externals:
+            # a method declared external in the target list: `ext_<Type>_<method> : Type → args → ret`
+            # (Type: a structure, or an opaque type such as a `&dyn Trait` parameter)
+            nm = "%s.%s" % (env[recv[1][0]][1], m)
+            if len(self.u.externals[nm]["params"]) == len(args) + 1:      # the receiver is listed among `params`
+                return self.call_external(nm, [recv] + list(args), env, pre)
+            rb, rbt = self.expr(recv, env, pre, None)
+            return self.call_external(nm, args, env, pre, recv=(rb, rbt))   # `params` are the arguments only
         if recv[0] == "path" and len(recv[1]) == 1 and recv[1][0] in env and env[recv[1][0]][0] == "struct" \
                 and (env[recv[1][0]][1], m) in self.u.fi.fns and m != "clone":
             v = recv[1][0]
@@ -2230,7 +2634,7 @@ class FnTranslator:
             if rty0 is not None and rty0[0] in ("struct", "enum") and (rty0[1], m) in self.u.fi.fns:
                 info = self.u.get_fn(rty0[1], m)
                 if info.mut_self or info.mut_params:
-                    return self.invoke(info, recv, args, env, pre)
+                    return self.invoke(info, recv, args, env, pre, wr)
                 a = self.args_for(info, args, env, pre)
                 rterm, _ = self.expr(recv, env, pre, None)
                 return self.call_translated(info, a, env, pre, rterm if " " not in rterm or rterm.startswith("(") else "(" + rterm + ")")
@@ -2251,7 +2655,14 @@ class FnTranslator:
         if k == "lockres":
             if m in ("unwrap", "expect"): return base, bt[1], "val"
             raise RsError("lock result used other than by unwrap/expect")
+        if m in self.u.externals and self.u.externals[m].get("receiver") is not None:
+            # declared external method: only on a receiver of exactly the declared (opaque or view) type
+            want_recv = self.u.parse_type(self.u.externals[m]["receiver"], self.impl)
+            if bt == want_recv and not ((k == "struct") and (bt[1], m) in self.u.fi.fns):
+                return self.call_external(m, args, env, pre, recv=(base, bt))
         if m in ("clone", "copied", "cloned", "as_ref", "to_owned", "borrow") and not args and k not in ("iter", "viter"):
+            return base, bt, "val"
+        if m == "to_vec" and not args and k == "vec":
             return base, bt, "val"
         if m == "into" and not args:
             if want is not None and is_uint(want) and is_uint(bt) and UBITS[want[1]] >= UBITS[bt[1]]: return base, want, "val"
@@ -2269,12 +2680,26 @@ class FnTranslator:
         if k == "tryres": return self.tryres_method(base, bt, m, args, env, pre)
         if k == "vec" or k == "iter": return self.list_method(base, bt, m, turbo, args, env, pre, want)
         if k == "str" and m in ("to_string", "as_str", "to_owned", "into", "as_ref") and not args: return base, bt, "val"
+        if k == "str" and m == "starts_with" and len(args) == 1:
+            px, pt = self.expr(args[0], env, pre, ("str",)); self.check_ty(pt, ("str",), "starts_with")
+            return "(String.isPrefixOf %s %s)" % (px, base), BOOL, "val"
+        # (added for C18, derive.rs) `"literal".as_bytes()`: the UTF-8 bytes of a string *literal*, spelled out (no
+        # string function on the Lean side: kernel-reducible); any other `&str` receiver stays outside the subset
+        if k == "str" and m == "as_bytes" and not args:
+            r0 = recv
+            while r0[0] in ("paren", "ref"): r0 = r0[1]
+            if r0[0] != "str": raise RsError("method .as_bytes on a &str that is not a literal is outside the subset (line %d)" % line)
+            return "[" + ", ".join(str(b) for b in r0[1].encode("utf-8")) + "]", ("vec", ("int", "u8")), "val"
         if k == "map" and bt[1] == ("str",) and m == "get" and len(args) == 1:
             kk, kt = self.expr(args[0], env, pre, ("str",)); self.check_ty(kt, ("str",), "map key")
             return "(Rs.smapGet %s %s)" % (base, kk), ("opt", bt[2]), "val"
         if k == "map" and bt[1] == ("str",) and m == "contains_key" and len(args) == 1:
             kk, kt = self.expr(args[0], env, pre, ("str",)); self.check_ty(kt, ("str",), "map key")
             return "(Rs.smapGet %s %s).isSome" % (base, kk), BOOL, "val"
+        if k in ("opaque", "struct") and (bt[1] + "." + m) in self.u.externals:
+            if len(self.u.externals[bt[1] + "." + m]["params"]) == len(args) + 1:
+                return self.call_external(bt[1] + "." + m, [recv] + list(args), env, pre)
+            return self.call_external(bt[1] + "." + m, args, env, pre, recv=(base, bt))
         if k in ("map", "umap"):
             g, _, _ = self.map_fns(bt, m in ("get", "contains_key"))
             if m in ("get", "contains_key") and len(args) == 1:
@@ -2582,10 +3007,13 @@ def fn_lean_lines(info):
     ops = []
     for _, t in info.params: u.opaques_of(t, ops)
     u.opaques_of(info.out_ty, ops)
+    for o in getattr(info, "ext_opaques", ()):
+        if o not in ops: ops.append(o)
+    def ext_ty(n, t): return t      # (a LazyTy renders itself now)
     sig = ""
     if ops: sig += " {%s : Type}" % " ".join(ops)
     for o in info.needs_deq: sig += " [DecidableEq %s]" % o
-    for n, t in info.exts: sig += " (%s : %s)" % (n, t)
+    for n, t in info.exts: sig += " (%s : %s)" % (n, ext_ty(n, t))
     for n, t in info.params: sig += " (%s : %s)" % (lid(n), u.lt(t))
     rt = u.lt(info.out_ty, not info.monadic)
     text = info.text.replace("/-", "/ -").replace("-/", "- /")
@@ -2598,7 +3026,7 @@ def fn_lean_lines(info):
         cur += w + " "
     L.append(cur.rstrip())
     if info.exts:
-        L.append("   externals (trusted boundary, explicit parameters): " + ", ".join("%s : %s" % x for x in info.exts))
+        L.append("   externals (trusted boundary, explicit parameters): " + ", ".join("%s : %s" % (n, ext_ty(n, t)) for n, t in info.exts))
     if info.dropped:
         L.append("   dropped: " + "; ".join(info.dropped))
     L.append("-/")
